@@ -27,6 +27,9 @@ HAND = [
     ("sv", "module m;\n`pragma protect begin\n`line 3 \"f.v\" 1\n`timescale 1ns\n  /  1ps\n wire w;\nendmodule\n"),
     ("sv", "module m; initial begin s = {\"a\\\nb\", \"c\"}; t = \"\\\n\"; end\r\n wire \\e$c ;\r\nendmodule\r\n"),
     ("lib", "library l \"a\\\nb\",\n  \"c\";\n/* x\n */ include \"y\";\n"),
+    # both orders of the two-clause timeunits declaration, in a module and at compilation-unit level
+    ("sv", "timeprecision 1ps; timeunit 1ns;\nmodule m; timeprecision 1ps;\n timeunit 1ns; wire w; endmodule\n"),
+    ("sv", "timeunit 1ns; timeprecision 1ps;\npackage p; timeunit 1ns / 1ps; endpackage\ninterface i; timeunit 1ns;\n timeprecision 1ps; endinterface\n"),
     # a byte order mark in front of the text: whether such text is accepted or not, an accepted tree covers it from offset 0
     ("sv", "\ufeffmodule m; endmodule\n"), ("lib", "\ufefflibrary l a.v;\n"), ("sv", "\ufeff// c\n`define W 1\nmodule m; wire [`W:0] w; endmodule\n"),
     # unquoted paths of a library map followed by a line break, a tab, CRLF instead of a blank
